@@ -9,6 +9,7 @@ CONSTANTS
   InitStores <- CollStores
   PublishAfterUnlock = FALSE
   CreatedRevalidated = TRUE
+  SubSer = TRUE
 VIEW ViewNoHist
 INVARIANTS TypeOK CommitValid EffectOnce LoserCodes
 CHECK_DEADLOCK FALSE
